@@ -4,6 +4,7 @@ import (
 	"net/url"
 	"strings"
 	"unicode"
+	"unicode/utf8"
 )
 
 // Empty tell if the string is considered empty once space
@@ -17,8 +18,14 @@ func Empty(s string) bool {
 }
 
 // Safe will tell if a character in the string is considered unsafe
-// Currently trigger on unicode control character except \n, \t and \r
+// Currently trigger on unicode control character except \n, \t and \r,
+// and on bytes that are not valid UTF-8 (they can't be stored: the JSON
+// encoder replaces them with U+FFFD)
 func Safe(s string) bool {
+	if !utf8.ValidString(s) {
+		return false
+	}
+
 	for _, r := range s {
 		switch r {
 		case '\t', '\r', '\n':
@@ -34,8 +41,13 @@ func Safe(s string) bool {
 }
 
 // SafeOneLine will tell if a character in the string is considered unsafe
-// Currently trigger on all unicode control character
+// Currently trigger on all unicode control character and on bytes that are
+// not valid UTF-8
 func SafeOneLine(s string) bool {
+	if !utf8.ValidString(s) {
+		return false
+	}
+
 	for _, r := range s {
 		if unicode.IsControl(r) {
 			return false
